@@ -22,6 +22,6 @@ GenView == <<start, hist, closed \/ stuck>>
 
 AllUnits == Units
 \* thorough depth-3 run: the interesting core (refusals and their neighbours)
-CoreUnits == {u \in Units : u.cmd \in {"LOGIN-user", "CREATE", "APPEND", "NOOP-lit", "NOOP", "IDLE", "FETCH-hdr"}
+CoreUnits == {u \in Units : u.cmd \in {"LOGIN-user", "CREATE", "APPEND", "APPEND-fail", "APPEND-panic", "NOOP-lit", "NOOP", "IDLE", "FETCH-hdr"}
                            /\ ~(u.size = "small" /\ u.payload = "benign" /\ u.form = "sync")}
 =============================================================================
